@@ -569,6 +569,7 @@ def mapToRustNode (po : PortOp) (isInput : Bool) (parts : String) : NM RNode := 
 
 /-- binding/mod.rs `read_port_operation` (body + headers of one direction) -/
 def bindingEnvelope (n : XNode) (po : PortOp) (isInput : Bool) : NM Envelope := do
+  let headerParts := (elemKidsTagged n "header").filterMap (·.attr? "part")
   let body ← match firstElemKid n "body" with
     | none => throw .nodeNotFound
     | some b =>
@@ -578,7 +579,7 @@ def bindingEnvelope (n : XNode) (po : PortOp) (isInput : Bool) : NM Envelope := 
       | some parts => mapToRustNode po isInput parts
       | none =>
         let msg? := if isInput then some po.input else po.output
-        match msg?.bind (fun m => m.parts.head?) with
+        match msg?.bind (fun m => m.parts.find? (fun kv => !headerParts.contains kv.1)) with
         | some (_, (rn, _)) => pure rn
         | none => throw .nodeNotFound
   let mut headers : List (String × RNode) := []
@@ -652,11 +653,11 @@ def nodeFuel : Nat := 100000
 mutual
 
 /-- `read_xml_internal` -/
-def readXmlInternal (files : List XFile) (fileName : String) (known : List Ns) (knownNodes : List RNode) :
+def readXmlInternal (files : String → Option XFile) (fileName : String) (known : List Ns) (knownNodes : List RNode) :
     Nat → FM Doc
   | 0 => throw .outOfFuel
   | fuel + 1 => do
-    let some file := files.find? (fun f => f.name == fileName) | throw .importNotFound
+    let some file := files fileName | throw .importNotFound
     let st ← get
     if st.processed.contains fileName then return {}
     let some tops := file.tops | throw .message
@@ -673,7 +674,7 @@ def readXmlInternal (files : List XFile) (fileName : String) (known : List Ns) (
     pure d
 
 /-- `read` + `read_wsdl` + `read_xsd` -/
-def readTop (files : List XFile) (file : XFile) (allElems : List (XNode × List XNode))
+def readTop (files : String → Option XFile) (file : XFile) (allElems : List (XNode × List XNode))
     (node : XNode) (d : Doc) : Nat → FM Doc
   | 0 => throw .outOfFuel
   | fuel + 1 => do
@@ -720,7 +721,7 @@ def readTop (files : List XFile) (file : XFile) (allElems : List (XNode × List 
     | _ => pure d
 
 /-- `read_xsd`; `anc` are the ancestors of the `schema` node -/
-def readXsd (files : List XFile) (file : XFile) (allElems : List (XNode × List XNode))
+def readXsd (files : String → Option XFile) (file : XFile) (allElems : List (XNode × List XNode))
     (schema : XNode) (anc : List XNode) (d : Doc) : Nat → FM Doc
   | 0 => throw .outOfFuel
   | fuel + 1 => do
@@ -734,7 +735,7 @@ def readXsd (files : List XFile) (file : XFile) (allElems : List (XNode × List 
           | none => throw Err.namespaceMissing
         if Tables.wellKnownNamespaces.contains ns then continue
         let some loc := child.attr? "schemaLocation" | continue
-        let some _ := files.find? (fun f => f.name == loc) | throw Err.importNotFound
+        let some _ := files loc | throw Err.importNotFound
         let st ← get
         if st.processed.contains loc then continue
         let imported ← readXmlInternal files loc d.namespaces (d.knownNodes ++ d.nodes) fuel
@@ -749,8 +750,19 @@ def readXsd (files : List XFile) (file : XFile) (allElems : List (XNode × List 
 
 end
 
-/-- `XmlReader::read_xml`: the processed flags are cleared first, then the start file is read -/
+/-- the file table is a map keyed by file name: it is only ever looked up by key -/
+def fileTable (files : List XFile) : String → Option XFile := fun n => files.find? (fun f => f.name == n)
+
+/-- `XmlReader::read_xml` on a `FilesToRead` whose processed flags are `flags` (left over from earlier
+    calls): the flags are cleared first, then the start file is read; the flags at the end are returned -/
+def readXmlOn (files : String → Option XFile) (start : String) (flags : RS) (fuel : Nat := 10000) : Except Err Doc × RS :=
+  let cleared : RS := { flags with processed := [] }
+  match (readXmlInternal files start [] [] fuel).run cleared with
+  | .ok (d, st) => (.ok d, st)
+  | .error e => (.error e, cleared)
+
+/-- `XmlReader::read_xml` on fresh files -/
 def readXml (files : List XFile) (start : String) (fuel : Nat := 10000) : Except Err Doc :=
-  ((readXmlInternal files start [] [] fuel).run {}).map (·.1)
+  (readXmlOn (fileTable files) start {} fuel).1
 
 end ZeepVerif.Model
